@@ -81,7 +81,32 @@ def _reach_forwarding(tree, cg, root, ob):
     return seen
 
 
+def _derived_containers(tree, ob):
+    ''' send_bundle decides "originated here" by the action record of the container.  A TX step that builds new containers
+    out of the one being sent (the fragmenter) and schedules them with glib.idle_add(send_bundle, X) must hand the record
+    on, or the pieces of a received bundle are given origination defaults (new timestamps = new identities, lifetime). '''
+    for rel in sorted(r for r in tree.modules if r.startswith('bp/app/')):
+        for (r, qual, func) in tree.all_functions([rel]):
+            for call in calls_in(func):
+                if (call_name(call) or '').endswith('idle_add') and len(call.args) >= 2 and src(call.args[0]).endswith('.send_bundle') and isinstance(call.args[1], ast.Name):
+                    fvx = FuncView(tree, rel, qual)
+                    new = call.args[1].id
+                    rd = fvx.reaching_defs(new, call)
+                    fresh = any(v is not None and isinstance(v, ast.Call) and (call_name(v) or '').endswith('BundleContainer') for (_s, v) in rd)
+                    if not fresh:
+                        continue
+                    inherits = [n for n in walk_local(func) if isinstance(n, ast.Assign) and any(src(t) == new + '.actions' for t in n.targets) and
+                                isinstance(n.value, ast.Call) and dotted(n.value.func) == 'dict' and n.value.args and (dotted(n.value.args[0]) or '').endswith('.actions')]
+                    if inherits and fvx.dominates(inherits[0], call)[0]:
+                        ob.site(rel, inherits[0], '{}: the new container inherits the action record before it is scheduled for sending'.format(qual))
+                    else:
+                        ob.violate(rel, qual, src(call)[:70], 'a container cut out of the bundle being sent is scheduled for sending with an empty action record: send_bundle takes it for a bundle '
+                                   'originated here and applies origination defaults (fragments of a forwarded bundle get new, mutually different creation timestamps)', call)
+
+
 def c11a(tree, ob, only=None):
+    if only is None:
+        _derived_containers(tree, ob)
     cg = CallGraph(tree, [AGENT, UTIL])
     root = tree.func(AGENT, Q)
     reach = _reach_forwarding(tree, cg, root, ob)
@@ -190,9 +215,38 @@ def c11c(tree, ob):
             inner = it.args[0]
         if inner is not None and inner.args:
             kinds.setdefault(src(inner.args[0]), []).append(lp)
+    # type codes from the @CanonicalBlock.bind_type(N) decorators
+    codes = {}
+    for rel in ('bp/encoding/blocks.py', 'bp/encoding/bpsec.py'):
+        for node in tree.module(rel).tree.body:
+            if isinstance(node, ast.ClassDef):
+                for d in node.decorator_list:
+                    got = pm('CanonicalBlock.bind_type($n)', d)
+                    if got is not None and isinstance(got['n'], ast.Constant):
+                        codes[node.name] = got['n'].value
+    # loops over a local that holds (a copy / a slice of) the block_type() list
+    for lp in loops:
+        if isinstance(lp.iter, ast.Name):
+            found = None
+            for (dst, dval) in fv.reaching_defs(lp.iter.id, lp):
+                if dval is None or not isinstance(dval, ast.AST):
+                    continue
+                val = fv.value_at(dval, dst, depth=3, keep=(lp.iter.id,))
+                for sub in ast.walk(val):
+                    if isinstance(sub, ast.Call) and isinstance(sub.func, ast.Attribute) and sub.func.attr == 'block_type' and sub.args:
+                        found = src(sub.args[0])
+            if found is not None:
+                kinds.setdefault(found, []).append(lp)
     for btype in ('PreviousNodeBlock', 'BundleAgeBlock'):
-        lps = kinds.get(btype, [])
+        code = codes.get(btype)
+        ob.require(code is not None, 'type code of {} not found'.format(btype))
+        by_class = kinds.get(btype, [])
+        lps = kinds.get(str(code), []) + by_class
         lp = one(lps, 'removal loop for ' + btype, ob)
+        if lp in by_class:
+            ob.violate(AGENT, Q, 'for blk in ctr.block_type({})'.format(btype), 'received {0} blocks are looked up by payload class: one whose data does not decode is indexed under its type code only and '
+                       'survives next to the block this node adds'.format(btype), lp)
+            continue
         rem = [c for c in calls_in(lp) if pm('ctr.remove_block({})'.format(src(lp.target)), c) is not None]
         if not rem:
             ob.violate(AGENT, Q, 'for blk in ctr.block_type({})'.format(btype), 'received {} blocks are not removed'.format(btype), lp)
@@ -231,21 +285,53 @@ def c11c(tree, ob):
         av = fv.value_at(age['a'], g, keep=('now_dtntime', 'create_dtntime'))
         cr = fv.value_at(ast.parse('create_dtntime', mode='eval').body, g, keep=('ctr',))
         nw = fv.value_at(ast.parse('now_dtntime', mode='eval').body, g)
-        ok = src(av) == 'now_dtntime - create_dtntime' and src(cr) == "ctr.bundle.primary.create_ts.getfieldval('dtntime')" and src(nw) == "self.timestamp().getfieldval('dtntime')"
+        ok = src(av) in ('now_dtntime - create_dtntime', 'max(0, now_dtntime - create_dtntime)') and src(cr) == "ctr.bundle.primary.create_ts.getfieldval('dtntime')" and \
+            src(nw) == "self.timestamp().getfieldval('dtntime')"
+        unclamped = src(av) == 'now_dtntime - create_dtntime'
     if not ok:
         ob.violate(AGENT, Q, src(g), 'the Bundle Age added is not (now - creation time)', g)
+    elif unclamped:
+        ob.violate(AGENT, Q, src(g), 'the age has no floor at zero: a creation time ahead of the local clock is sent as a negative integer, which is not a valid age', g)
     elif not fv.has(g, 'create_dtntime == 0', False):
         ob.violate(AGENT, Q, src(g), 'an age is computed from an unknown (zero) creation time', g)
     elif enclosing(g, (ast.For, ast.While)) is not None:
         ob.violate(AGENT, Q, src(g), 'more than one Bundle Age block can be added', g)
     else:
         ob.site(AGENT, g, 'at most one Age block = now - creation, only when creation time is known')
-    al = kinds.get('BundleAgeBlock', [None])[0]
+    al = (kinds.get(str(codes.get('BundleAgeBlock')), []) + kinds.get('BundleAgeBlock', []) + [None])[0]
+    # with creation time zero the received age is the only record of the time since creation: not all of it may be removed
+    if al is not None:
+        itv = fv.value_at(al.iter, al, depth=1) if isinstance(al.iter, ast.Name) else al.iter
+        defs = fv.reaching_defs(al.iter.id, al) if isinstance(al.iter, ast.Name) else []
+        keeps = any(d[1] is not None and isinstance(d[1], ast.Subscript) and isinstance(d[1].slice, ast.Slice) and fv.has(d[0], 'create_dtntime == 0', True) for d in defs)
+        if keeps:
+            ob.site(AGENT, al, 'creation time zero keeps one received Age block')
+        else:
+            ob.violate(AGENT, Q, 'for blk in <all Bundle Age blocks>: remove', 'for a bundle with creation time zero every received Bundle Age block is removed and none is added: the only record of the '
+                       'time since creation is destroyed', al)
     if al is not None and fv.node(al.iter) in fv.cfg.reachable([fv.node(g)]):
         ob.violate(AGENT, Q, src(g), 'the new Age block is added before the old ones are removed', g)
 
 
 def c11d(tree, ob):
+    # the number of a new block is a field value of that block.  scapy's overloaded_fields of a block built as
+    # CanonicalBlock()/X() is the CLASS-level dict of the bind_layers() binding: a number stored there sticks to every
+    # later block of that kind, in every later bundle
+    nbad = 0
+    for rel in sorted(r for r in tree.modules if r.startswith('bp/')):
+        for (r, qual, func) in tree.all_functions([rel]):
+            for node in walk_local(func):
+                if isinstance(node, (ast.Assign, ast.AugAssign)):
+                    for t in (node.targets if isinstance(node, ast.Assign) else [node.target]):
+                        if isinstance(t, ast.Subscript) and isinstance(t.value, ast.Attribute) and t.value.attr == 'overloaded_fields':
+                            nbad += 1
+                            ob.violate(rel, qual, src(node), 'a field value is stored in overloaded_fields, the class-level dict of the layer binding: the block number assigned while forwarding one '
+                                       'bundle is pre-assigned to the same kind of block of every later bundle (a clash makes that forward fail)', node)
+                # a misspelt str method in an error path turns the intended error into AttributeError
+                if isinstance(node, ast.Attribute) and isinstance(node.value, ast.Constant) and isinstance(node.value.value, str) and not hasattr(str, node.attr):
+                    ob.violate(rel, qual, src(node)[:70], 'str has no method {!r}: this error path raises AttributeError instead of the intended exception'.format(node.attr), node)
+    if not nbad:
+        ob.site(UTIL, tree.func(UTIL, 'BundleContainer._fix_blk_num'), 'no field value is stored in a class-level overloaded_fields dict')
     fa = FuncView(tree, UTIL, 'BundleContainer.add_block')
     ins = [c for c in calls_in(fa.func) if isinstance(c.func, ast.Attribute) and c.func.attr in ('insert', 'append') and src(c.func.value) == 'self.bundle.blocks']
     i = one(ins, 'block insertion', ob)
